@@ -226,8 +226,8 @@ def instantiate(toks, P, seed, template, effects=False):
                 return si
             z, o = pg.node({"k": "num", "v": 0}), pg.node({"k": "num", "v": 1})
             i0, i1 = pg.node({"k": "idx", "x": arr, "l": z}), pg.node({"k": "idx", "x": arr, "l": o})
-            top = pg.node({"k": "bin", "op": "add", "l": i0, "r": i1})
-            text = "%s[0] + %s[1]" % (arr, arr)
+            top = pg.node({"k": "bin", "op": "sub", "l": i0, "r": i1})      # not symmetric: it matters WHICH element was written
+            text = "%s[0] - %s[1]" % (arr, arr)
             n_ = len(arr)
             rg = [(z, n_ + 1, n_ + 2), (i0, 0, n_ + 3), (o, 2 * n_ + 7, 2 * n_ + 8), (i1, n_ + 6, 2 * n_ + 9), (top, 0, len(text))]
             if t == "Ridx":
